@@ -704,9 +704,17 @@ class Interp(object):
                     raise Unwind()
                 escaped = ex
             else:
-                env.stack.pop()
-                node.outcome = "succeeded"
-                self.api(("end", nid), a.__exit__, None, None, None)
+                ff = op.get("foreign_finish")
+                if ff:
+                    node.outcome = "succeeded"
+                    self._foreign_finish(a, nid, ff)
+                    self.check_current(env, "foreign_finish")
+                    env.stack.pop()
+                    self.api(("exit", nid), a.__exit__, None, None, None)
+                else:
+                    env.stack.pop()
+                    node.outcome = "succeeded"
+                    self.api(("end", nid), a.__exit__, None, None, None)
         elif style in ("context", "run"):
             # a.context() / a.run(f): scope only; finish explicitly afterwards
             later = [] if (op.get("join_after_scope") and style == "context") else None
@@ -810,6 +818,23 @@ class Interp(object):
                 escaped.args = ("changed while passing nid=%d" % nid,)
                 rc.probe("exception_mutated_between_actions")
             raise escaped
+
+    def _foreign_finish(self, a, nid, how):
+        """finish() called on the action from another thread / another contextvars Context."""
+        rc = self.rc
+        rc.probe("finished_from_elsewhere_" + how)
+        if how == "thread" and not self.async_mode and rc.sched is not None:
+            interp = self
+            rc.n_ff = getattr(rc, "n_ff", 0) + 1
+
+            def fn():
+                interp.actor_wrap(lambda: interp.api(("end", nid), a.finish), "ff")
+            act = rc.sched.spawn("ff%d" % rc.n_ff, fn)
+            rc.sched.yield_point("join")
+            rc.sched.join(act)
+        else:
+            import contextvars
+            contextvars.copy_context().run(lambda: self.api(("end", nid), a.finish))
 
     def _typed_succ(self, node, a, typed_succ):
         for k2, v in typed_succ.items():
